@@ -210,6 +210,7 @@ def find_budget(ctx, R, d, fl, head, body, inside):
                 if p in seg and not any(x in avoid for x in seg):
                     return True
         return False
+    exhausted_edges = {}
     for l, c_ in cells.items():
         if not c_["steps"] or not c_["inits"] or c_["other"]:
             continue
@@ -247,6 +248,7 @@ def find_budget(ctx, R, d, fl, head, body, inside):
                         exhausted = big if up else (not big)
                     if not exhausted:
                         continue
+                    exhausted_edges.setdefault(l if isinstance(l, int) else repr(l), set()).add((sb, tgt))
                     if any(cycle_avoiding(p, {sb}) for p in inside):
                         continue
                     # on exhaustion: out of the loop, self-wake, Pending -- on every feasible path crossing the edge
@@ -287,6 +289,9 @@ def find_budget(ctx, R, d, fl, head, body, inside):
                             "sb": sb, "tgt": tgt, "exit_ok": exit_ok, "exit_det": bad or "%d feasible crossings" % n_cross, "room": room}
                     if best is None or (cand["exit_ok"] and not best["exit_ok"]):
                         best = cand
+    if best is not None:
+        # every edge on which the same cell tests as exhausted (a cycle that found nothing to poll may be charged and tested too)
+        best["all_edges"] = sorted(exhausted_edges.get(best["l"] if isinstance(best["l"], int) else repr(best["l"]), set()))
     return best
 
 
